@@ -65,6 +65,24 @@ theorem safe_sliceFrom {u : List Site} (s : Site) (xs : List α) (i : Nat) (h : 
     · exact safe_panic h
     · omega
 
+theorem safe_divNat {u : List Site} (s : Site) (a b : Nat) (h : s ∈ u ∨ b ≠ 0) : Safe u (divNat s a b) := by
+  unfold divNat
+  split
+  · rename_i hb
+    rcases h with h | h
+    · exact safe_panic h
+    · exact absurd (by simpa using hb) h
+  · exact safe_ok _
+
+theorem safe_divInt {u : List Site} (s : Site) (a b : Int) (h : s ∈ u ∨ b ≠ 0) : Safe u (divInt s a b) := by
+  unfold divInt
+  split
+  · rename_i hb
+    rcases h with h | h
+    · exact safe_panic h
+    · exact absurd (by simpa using hb) h
+  · exact safe_ok _
+
 theorem safe_asStr {u : List Site} (s : Site) (v : JVal) (h : s ∈ u ∨ isStr v = true) : Safe u (asStr s v) := by
   cases v <;> simp [asStr, isStr, str?] at h ⊢ <;> first | exact safe_ok _ | exact safe_panic h
 
@@ -218,10 +236,53 @@ theorem safe_senderGov (u : List Site) (e : Env) : Safe u (senderGov e) := by
     · exact safe_ok _
     · exact safe_reject _
 
-theorem safe_senderState (u : List Site) (e : Env) (strict : Bool) : Safe u (senderState e strict) := by
+/-- State invariant: the voted gas price is not zero (`validateById` refuses a zero candidate, the default is
+50 gaer; `Props.C14.gasPrice_nonzero_all_histories`).  Negative prices are possible and do not crash. -/
+def GasPriceOk (e : Env) : Prop := e.gasPrice ≠ 0
+
+theorem safe_maxGasLimit (u : List Site) (b g : Int) (h : .fCalcGas ∈ u ∨ g ≠ 0) : Safe u (maxGasLimit b g) := by
+  unfold maxGasLimit
+  apply safe_bind (safe_divInt _ _ _ h); intro _ _
+  exact safe_pure _
+
+theorem safe_txMaxFee (u : List Site) (e : Env) (b : Int) (h : .fCalcGas ∈ u ∨ GasPriceOk e) : Safe u (txMaxFee e b) := by
+  unfold txMaxFee
+  split
+  · exact safe_ok _
+  · split
+    · exact safe_ok _
+    · apply safe_bind
+      · split
+        · exact safe_maxGasLimit _ _ _ h
+        · exact safe_pure _
+      · intro _ _
+        split <;> exact safe_pure _
+
+theorem safe_validateMaxFee (u : List Site) (e : Env) (b : Int) (h : .fCalcGas ∈ u ∨ GasPriceOk e) :
+    Safe u (validateMaxFee e b) := by
+  unfold validateMaxFee
+  apply safe_bind (safe_txMaxFee _ _ _ h); intro r _
+  cases r with
+  | none => exact safe_reject _
+  | some f => exact safe_rejectIf _ _
+
+theorem safe_senderType (u : List Site) (e : Env) (h : .fCalcGas ∈ u ∨ GasPriceOk e) : Safe u (senderType e) := by
+  unfold senderType
+  simp only
+  split
+  · apply safe_bind (safe_rejectIf _ _); intro _ _
+    exact safe_validateMaxFee _ _ _ h
+  · split
+    · exact safe_senderGov _ _
+    · split
+      · exact safe_rejectIf _ _
+      · exact safe_ok _
+
+theorem safe_senderState (u : List Site) (e : Env) (strict : Bool) (h : .fCalcGas ∈ u ∨ GasPriceOk e) :
+    Safe u (senderState e strict) := by
   unfold senderState
   apply safe_bind (safe_rejectIf _ _); intro _ _
-  apply safe_bind (safe_senderGov _ _); intro _ _
+  apply safe_bind (safe_senderType _ _ h); intro _ _
   exact safe_rejectIf _ _
 
 /-! ### what a successful types-level validation establishes -/
@@ -382,6 +443,151 @@ theorem sysValidate_ok {u : List Site} {e : Env} {c : SysCtx} (h : sysValidate u
             | none => simp [hs] at this
             | some _ => rfl
 
+/-! #### parameter votes: tally sort (`VoteList.Less`), threshold, Sync -/
+
+theorem contains_mem {u : List Site} {s : Site} (h : u.contains s = true) : s ∈ u := by
+  simpa using h
+
+/-- `VoteList.Less` on two entries of ANY candidate lengths panics only if its guard is missing (site in `u`). -/
+theorem safe_voteLess (u : List Site) (a b : VoteEnt) : Safe u (voteLess u a b) := by
+  unfold voteLess
+  split
+  · exact safe_ok _
+  · split
+    · apply safe_bind
+      · split
+        · rename_i hc
+          simp only [Bool.and_eq_true, Bool.or_eq_true, beq_iff_eq, decide_eq_true_eq] at hc
+          obtain ⟨ha, hb⟩ := hc
+          apply safe_bind
+          · apply safe_sliceFrom; right; omega
+          · intro _ _
+            apply safe_bind
+            · apply safe_sliceFrom
+              rcases hb with hb | hb
+              · right; omega
+              · left; exact contains_mem hb
+            · intro _ _; exact safe_pure _
+        · exact safe_pure _
+      · intro _ _; exact safe_pure _
+    · exact safe_ok _
+
+theorem safe_insertDesc (u : List Site) (x : VoteEnt) (l : List VoteEnt) : Safe u (insertDesc u x l) := by
+  induction l with
+  | nil => exact safe_ok _
+  | cons y r ih =>
+    unfold insertDesc
+    apply safe_bind (safe_voteLess _ _ _); intro b _
+    split
+    · exact safe_pure _
+    · apply safe_bind ih; intro _ _; exact safe_pure _
+
+theorem insertDesc_length {u : List Site} {x : VoteEnt} {l l' : List VoteEnt} (h : insertDesc u x l = .ok l') :
+    l'.length = l.length + 1 := by
+  induction l generalizing l' with
+  | nil => unfold insertDesc at h; cases h; rfl
+  | cons y r ih =>
+    unfold insertDesc at h
+    obtain ⟨b, _, h⟩ := bind_ok h
+    split at h
+    · have := pure_ok h; subst this; rfl
+    · obtain ⟨r', hr, h⟩ := bind_ok h
+      have := pure_ok h; subst this
+      simp [ih hr]
+
+/-- The tally sort is total on every list: it panics only at an unguarded `Less`. -/
+theorem safe_sortDesc (u : List Site) (l : List VoteEnt) : Safe u (sortDesc u l) := by
+  induction l with
+  | nil => exact safe_ok _
+  | cons x r ih =>
+    unfold sortDesc
+    apply safe_bind ih; intro _ _
+    exact safe_insertDesc _ _ _
+
+theorem sortDesc_length {u : List Site} {l l' : List VoteEnt} (h : sortDesc u l = .ok l') : l'.length = l.length := by
+  induction l generalizing l' with
+  | nil => unfold sortDesc at h; cases h; rfl
+  | cons x r ih =>
+    unfold sortDesc at h
+    obtain ⟨r', hr, h⟩ := bind_ok h
+    rw [insertDesc_length h, ih hr]; rfl
+
+/-- `threshold` divides only by a non-zero hundredth of the top tally — unless its guard is missing. -/
+theorem safe_threshold (u : List Site) (p t : Nat) : Safe u (threshold u p t) := by
+  unfold threshold
+  split
+  · exact safe_ok _
+  · simp only
+    split
+    · exact safe_ok _
+    · rename_i hg
+      apply safe_bind
+      · apply safe_divNat
+        simp only [Bool.and_eq_true, beq_iff_eq, Bool.not_eq_true', not_and, Bool.not_eq_false] at hg
+        by_cases h0 : p / 100 = 0
+        · left; exact contains_mem (hg h0)
+        · right; exact h0
+      · intro _ _; exact safe_pure _
+
+theorem addRow_length (rows : List TallyRow) (c : List Nat) (a : Nat) :
+    rows.length ≤ (addRow rows c a).length ∧ 0 < (addRow rows c a).length := by
+  unfold addRow
+  split
+  · rename_i h
+    simp only [List.length_map]
+    refine ⟨Nat.le_refl _, ?_⟩
+    cases rows with
+    | nil => simp at h
+    | cons _ _ => simp
+  · simp
+
+theorem addRows_length (rows : List TallyRow) (cs : List (List Nat)) (a : Nat) :
+    rows.length ≤ (addRows rows cs a).length ∧ (cs ≠ [] → 0 < (addRows rows cs a).length) := by
+  induction cs generalizing rows with
+  | nil => simp [addRows]
+  | cons c r ih =>
+    unfold addRows
+    simp only [List.foldl_cons]
+    have h1 := addRow_length rows c a
+    have h2 := ih (addRow rows c a)
+    unfold addRows at h2
+    exact ⟨Nat.le_trans h1.1 h2.1, fun _ => Nat.lt_of_lt_of_le h1.2 h2.1⟩
+
+/-- `Sync` of a parameter tally: the top entry exists when the vote being added names a candidate or the tally
+is not empty. -/
+theorem safe_syncDao (u : List Site) (e : Env) (issue : Nat) (hadOld : Bool) (cs : List (List Nat)) (amt : Nat)
+    (h : .rSyncTop ∈ u ∨ cs ≠ [] ∨ e.rows issue ≠ []) : Safe u (syncDao u e issue hadOld cs amt) := by
+  unfold syncDao
+  simp only
+  apply safe_bind (safe_sortDesc _ _); intro sorted hs
+  apply safe_bind
+  · apply safe_idx
+    rcases h with h | h
+    · exact .inl h
+    · right
+      rw [sortDesc_length hs]
+      simp only [buildVoteList, List.length_map]
+      rcases h with h | h
+      · exact (addRows_length _ cs amt).2 h
+      · have hpos : 0 < (e.rows issue).length := by
+          cases hr : e.rows issue with
+          | nil => exact absurd hr h
+          | cons _ _ => simp
+        have := (addRows_length (if hadOld = true then subRows (e.rows issue) (e.voteAmt.getD issue 0) else e.rows issue) cs amt).1
+        have hl : (if hadOld = true then subRows (e.rows issue) (e.voteAmt.getD issue 0) else e.rows issue).length = (e.rows issue).length := by
+          split
+          · simp [subRows]
+          · rfl
+        omega
+  · intro _ _
+    apply safe_bind (safe_threshold _ _ _); intro _ _
+    exact safe_pure _
+
+/-- State invariant: the sender's old record on a parameter issue names at least one candidate of that issue's
+tally (every stored parameter vote has exactly one candidate since fix 9f771520; with `OldVotesOk` it is in the tally). -/
+def OldDaoVotesOk (e : Env) : Prop :=
+  ∀ i, i ≠ 0 → e.voteRec.getD i false = true → oldCands e i ≠ []
+
 /-- State invariant used by the vote commands: an old vote record only names candidates that have an
 entry in the issue's tally (true in every state reached through validated 39-byte candidates). -/
 def OldVotesOk (e : Env) : Prop := ∀ i, e.voteRec.getD i false = true → e.oldVoteOk.getD i true = true
@@ -399,14 +605,24 @@ theorem safe_subOld (u : List Site) (e : Env) (i : Nat) (c : Bool) (hs : .rSubNi
       exact absurd h.2 (by simp)
   · exact safe_ok _
 
-theorem safe_refreshAllVote (u : List Site) (e : Env) (n : Nat) (l : List Nat) (hs : .rSubNil ∈ u ∨ OldVotesOk e) :
-    Safe u (refreshAllVote e n l) := by
+theorem safe_refreshAllVote (u : List Site) (e : Env) (n : Nat) (l : List Nat) (hs : .rSubNil ∈ u ∨ OldVotesOk e)
+    (hd : .rSyncTop ∈ u ∨ OldDaoVotesOk e) : Safe u (refreshAllVote u e n l) := by
   induction l with
   | nil => exact safe_ok _
   | cons i r ih =>
     unfold refreshAllVote
+    simp only
     apply safe_bind (safe_subOld _ _ _ _ hs); intro _ _
-    exact ih
+    apply safe_bind
+    · split
+      · rename_i ht
+        simp only [Bool.and_eq_true, decide_eq_true_eq, bne_iff_ne, ne_eq] at ht
+        apply safe_syncDao
+        rcases hd with hd | hd
+        · exact .inl hd
+        · exact .inr (.inl (hd i ht.2 ht.1.1))
+      · exact safe_pure _
+    · intro _ _; exact ih
 
 theorem safe_asStrAll (u : List Site) (s : Site) (xs : List JVal) (h : s ∈ u ∨ xs.all isStr = true) :
     Safe u (asStrAll s xs) := by
@@ -489,38 +705,67 @@ theorem safe_voteArgs (u : List Site) (c : SysCtx)
   · rename_i hp
     apply safe_asStrAll; right; exact hB (by simpa using hp)
 
+theorem voteArgs_dao {c : SysCtx} {a : Unit} (hp : c.proposal = true) (h : voteArgs c = .ok a) :
+    daoCands c.ci.args ≠ [] := by
+  unfold voteArgs at h
+  rw [if_pos hp] at h
+  obtain ⟨_, _, h⟩ := bind_ok h
+  obtain ⟨_, _, h⟩ := bind_ok h
+  obtain ⟨s, hs, _⟩ := bind_ok h
+  have h1 := argStr_ok hs
+  unfold daoCands
+  intro hnil
+  have hlen : 1 < c.ci.args.length := (List.getElem?_eq_some_iff.mp h1).1
+  have h0 : (c.ci.args.drop 1)[0]? = some (.str s) := by
+    simp [List.getElem?_drop, h1]
+  cases hd : c.ci.args.drop 1 with
+  | nil => rw [hd] at h0; simp at h0
+  | cons v r =>
+    rw [hd] at h0 hnil
+    simp only [List.getElem?_cons_zero, Option.some.injEq] at h0
+    subst h0
+    simp [List.filterMap_cons, str?] at hnil
+
 theorem safe_sysRun (u : List Site) (e : Env) (c : SysCtx) (hs : .rSubNil ∈ u ∨ OldVotesOk e)
+    (hd : .rSyncTop ∈ u ∨ OldDaoVotesOk e)
     (hcap : candTotal e c.ci.args ≤ e.candCap)
     (hP : c.proposal = true → 1 ≤ c.ci.args.length ∧ (∃ s, c.ci.args[0]? = some (.str s)) ∧
         (.vDaoVal ∈ u ∨ ∃ v, c.ci.args[1]? = some v ∧ isStr v = true))
     (hB : c.proposal = false → (c.op = .voteBP ∨ c.op = .voteDAO) → c.ci.args.all isStr = true ∧
         (.rAddSlice ∈ u ∨ (indices c.ci.args).all (fun i => (e.arg i).b58 == some peerIDLength) = true)) :
-    Safe u (sysRun e c) := by
+    Safe u (sysRun u e c) := by
   unfold sysRun
   split
   · exact safe_ok _
-  · exact safe_refreshAllVote _ _ _ _ hs
+  · exact safe_refreshAllVote _ _ _ _ hs hd
   all_goals
     rename_i hop
     apply safe_bind
     · apply safe_voteArgs _ _ hP
       intro hp; exact (hB hp (by simp [hop])).1
-    · intro _ _
+    · intro _ hva
       apply safe_bind (safe_subOld _ _ _ _ hs); intro _ _
-      apply safe_addNew _ _ _ _ hcap
-      intro hp; exact (hB hp (by simp [hop])).2
+      apply safe_bind
+      · apply safe_addNew _ _ _ _ hcap
+        intro hp; exact (hB hp (by simp [hop])).2
+      · intro _ _
+        split
+        · rename_i hp
+          apply safe_syncDao
+          exact .inr (.inl (voteArgs_dao hp hva))
+        · exact safe_pure _
 
 /-- Runtime fact: a slice's length never exceeds its capacity (the candidate buffer of `newVoteCmd`). -/
 def CapOk (e : Env) : Prop := ∀ ci, unmarshalCallInfo e.tx.payload = some ci → candTotal e ci.args ≤ e.candCap
 
 theorem safe_sysExecute (u : List Site) (e : Env)
     (ht : ∀ ci, unmarshalCallInfo e.tx.payload = some ci → typesSystem u e ci = .ok ())
-    (hs : .rSubNil ∈ u ∨ OldVotesOk e) (hcap : CapOk e) : Safe u (sysExecute u e) := by
+    (hs : .rSubNil ∈ u ∨ OldVotesOk e) (hd : .rSyncTop ∈ u ∨ OldDaoVotesOk e) (hcap : CapOk e) : Safe u (sysExecute u e) := by
   unfold sysExecute
   apply safe_bind (safe_sysValidate u e ht)
   intro c hc
   obtain ⟨hci, hop, hnd, hP⟩ := sysValidate_ok hc
-  apply safe_sysRun u e c hs (hcap _ hci) hP
+  apply safe_sysRun u e c hs hd (hcap _ hci) hP
   intro hp hor
   have hbp : getOpSysTx c.ci.name = .voteBP := by
     rcases hor with h | h
